@@ -71,8 +71,10 @@ RNorm(st) == [pods |-> [p \in DOMAIN st.pods |->
                  [st.pods[p] EXCEPT !.groups = IF st.pods[p].st = "Pending" THEN <<>> ELSE @,
                                     !.acc = IF ActiveAllocated(st.pods[p].st) THEN @ ELSE 0]],
               nodes |-> st.nodes, jobs |-> st.jobs, queues |-> st.queues]
-\* the resource-claim part of a logged state (see harness/cmd/stmt/dra.go ProjectClaims); nothing is normalised
+\* the resource-claim part of a logged state (see harness/cmd/stmt/dra.go ProjectClaims); nothing is normalised.
+\* Only pods with a claim / nodes with DRA devices have entries (a scenario without DRA has two empty parts).
 RClaims(st) == st.claims
+RClaimOf(st, p) == IF p \in DOMAIN st.claims.pods THEN st.claims.pods[p] ELSE <<>>
 ROps(o) == [i \in 1..Len(o) |-> [k |-> o[i].k, p |-> o[i].p, tgt |-> o[i].tgt + 1, valid |-> (o[i].valid = 1)]]
 
 SetCp(f, k, st) == [x \in DOMAIN f \cup {k} |-> IF x = k THEN st ELSE f[x]]
@@ -129,7 +131,7 @@ TraceCall ==
      /\ clOK' = CASE e.op = "Rollback" -> (e.cp \in DOMAIN cps => RClaims(e.state) = RClaims(Trace[cps[e.cp]].state))
                    [] e.op = "Discard"  -> RClaims(e.state) = RClaims(Trace[cps[0]].state)
                    [] (e.op = "Unevict" \/ (e.op = "Pipeline" /\ UnevictPath(e))) /\ e.err = 0 /\ evb[e.p] # 0 ->
-                        RClaims(e.state).pods[e.p] = RClaims(Trace[evb[e.p]].state).pods[e.p]
+                        RClaimOf(e.state, e.p) = RClaimOf(Trace[evb[e.p]].state, e.p)
                    [] OTHER -> TRUE
      /\ act' = Lbl(e.op, e.p, e.node, e.upd = 1, e.g, e.cp, e.j, e.err = 0)
      /\ CASE e.op = "Evict" ->
